@@ -18,6 +18,7 @@ No verdict depends on the wall clock.
 """
 import gc
 import hashlib
+import io
 import json
 import os
 import shutil
@@ -443,6 +444,51 @@ def _dev_note(data, target, r, n, extra):
             json.dump(_DEV_STATS, f)
 
 
+READ_C1, READ_C0 = 4, 256
+
+
+class _CountingStream(io.BytesIO):
+    """a caller-supplied stream that counts the bytes the decoder takes from it (read() returning the whole rest counts the
+    whole rest) and aborts once they exceed the bound"""
+
+    def __init__(self, data):
+        io.BytesIO.__init__(self, data)
+        self.taken = 0
+        self.limit = READ_C1 * len(data) + READ_C0
+
+    def read(self, *a):
+        b = io.BytesIO.read(self, *a)
+        self.taken += len(b)
+        if self.taken > self.limit:
+            raise _WorkExceeded()
+        return b
+
+
+def _read_volume(data):
+    """-> None, or the number of bytes taken when the decoder reads more than READ_C1 * n + READ_C0 bytes from its stream"""
+    cs = _CountingStream(data)
+    old = sys.getrecursionlimit()
+    sys.setrecursionlimit(_depth() + REC_HEADROOM)
+    gc_was = gc.isenabled()
+    gc.disable()
+    try:
+        Serializable.loadb(cs)
+    except _WorkExceeded:
+        return cs.taken
+    except KeyboardInterrupt:
+        raise
+    except BaseException:  # noqa - outcomes are judged by the measured run
+        pass
+    finally:
+        if gc_was:
+            gc.enable()
+        try:
+            sys.setrecursionlimit(old)
+        except RecursionError:
+            pass
+    return None
+
+
 def evaluate(data, target="loadb", alloc=True):
     """apply the oracle to one input at one entry point.
     returns (verdict, label): verdict is None or (signature, detail); label classifies the outcome"""
@@ -479,6 +525,12 @@ def evaluate(data, target="loadb", alloc=True):
         if bad:
             return ("ill-typed-value", "%s returned a value with a %s" % (head, bad)), "illtyped"
     r.exc = r.value = None
+    if target == "loadb":
+        # work that the line counter cannot see: how many bytes the decoder takes from the stream it is given
+        taken = _read_volume(data)
+        if taken is not None:
+            return ("read-volume-bound", "%s read more than %d*n+%d = %d bytes from its input stream (stopped at %d)" % (
+                head, READ_C1, READ_C0, READ_C1 * n + READ_C0, taken)), "readvolume"
     return None, label
 
 
